@@ -77,6 +77,12 @@ func c02SSO(r *core.Run, idx int, rng *rand.Rand) {
 		b := []string{spsim.BindPost, spsim.BindPost, spsim.BindRedirect, spsim.BindRedirect, spsim.BindArtifact, otherSAMLBindings[0], otherSAMLBindings[rng.Intn(len(otherSAMLBindings))]}[rng.Intn(7)]
 		c.SPD.ACS = append(c.SPD.ACS, spsim.ACS{Binding: b, Location: hostileEndpoint(rng, "spa.example", k, false),
 			Index: []string{"0", "1", "2", "7", "65535"}[rng.Intn(5)], IsDefault: []string{"", "", "true", "false", "1", "0"}[rng.Intn(6)]})
+		if rng.Intn(5) == 0 {
+			// the endpoint type's optional ResponseLocation attribute on a consumer service: the registered pair stays
+			// (Location, Binding)
+			c.SPD.ACS[k].ResponseLocation = []string{"https://spa.example/response-location/" + randHex(rng, 3), evilURL(rng), c.SPD.ACS[k].Location}[rng.Intn(3)]
+			r.Count("consumer_services_with_a_response_location", 1)
+		}
 	}
 	other := stdSP(1)
 	other.EntityID = "https://spb.example/metadata"
@@ -238,6 +244,16 @@ func c02Callback(r *core.Run, idx int, rng *rand.Rand) {
 	if rng.Intn(5) == 0 {
 		sc.S.RelayState += "?" + strings.Repeat(plainString(rng, 40)+"&", 150+rng.Intn(200))
 	}
+	if rng.Intn(6) == 0 {
+		// a stored request without consumer URL whose other fields (taken from the protocol message when it was
+		// persisted) name URLs: none of them is a delivery target, the reply stays in the HTTP body
+		sc.S.ACS = ""
+		sc.S.Destination = evilURL(rng)
+		if rng.Intn(2) == 0 {
+			sc.S.Issuer = evilURL(rng)
+		}
+		r.Count("stored_requests_without_consumer_url", 1)
+	}
 	state := idx % 3 // done, pending, done+late failure
 	if state == 1 {
 		sc.Done = false
@@ -284,6 +300,14 @@ func c02Callback(r *core.Run, idx int, rng *rand.Rand) {
 		return
 	}
 	r.Count("callback_replies_"+d.Kind, 1)
+	if sc.S.ACS == "" {
+		if d.Kind != "xml-body" {
+			viol("target_not_stored_url", fmt.Sprintf("the stored request has no consumer URL, the reply was delivered as %s to %q", d.Kind, d.Target))
+		} else if ev := evilIn(d.Msg.Destination, d.Msg.SCRecipient); ev != "" {
+			viol("foreign_destination_in_message", "Destination/Recipient "+ev)
+		}
+		return
+	}
 	if d.Kind != wantKind {
 		viol("delivery_binding", fmt.Sprintf("stored binding %s but reply delivered as %s", bind, d.Kind))
 		return
